@@ -724,3 +724,28 @@ func VerifDataFlag(wire []byte) (byte, bool) {
 	}
 	return msg[hl], true
 }
+
+// VerifCraftRevealSig builds a Reveal Signature message like the one the conversation has just sent
+// (state AWAITING_SIG: r and the keys of the exchange are still in the AKE context), but whose
+// encrypted block is the given bytes - encrypted and MACed with the genuine keys of the exchange.
+// This is what a peer that takes part in the DH exchange honestly is able to send. The message is
+// returned with its header, not armoured; the conversation is not changed.
+func VerifCraftRevealSig(c *Conversation, block []byte) ([]byte, bool) {
+	if c.ake == nil || c.version == nil {
+		return nil, false
+	}
+	if _, ok := c.ake.state.(authStateAwaitingSig); !ok {
+		return nil, false
+	}
+	xb, err := encrypt(c.ake.revealKey.c, append([]byte{}, block...))
+	if err != nil {
+		return nil, false
+	}
+	enc := AppendData(nil, xb)
+	m := revealSig{r: c.ake.r, encryptedSig: enc, macSig: sumHMAC(c.ake.revealKey.m2, enc, c.version)}
+	msg, err := c.wrapMessageHeader(msgTypeRevealSig, m.serialize(c.version))
+	if err != nil {
+		return nil, false
+	}
+	return append([]byte{}, msg...), true
+}
